@@ -18,6 +18,9 @@ pub struct Entry {
    /// structural trigger the failing history must have (fixed vocabulary, see `trigger_holds`)
    pub trigger: String,
    pub what: String,
+   /// call sites: program -> relations in which the finding shows; empty = not restricted
+   #[serde(default)]
+   pub sites: std::collections::BTreeMap<String, Vec<String>>,
    #[serde(default)]
    pub commit: Option<String>,
 }
@@ -54,6 +57,10 @@ pub fn matching<'a>(entries: &'a [Entry], property: &str, case: &Case, v: &Viola
          && e.property == property
          && v.class.starts_with(&e.class)
          && trigger_holds(&e.trigger, case)
+         && (e.sites.is_empty()
+            || case.actors.iter().any(|a| {
+               e.sites.get(&a.program).map_or(false, |rels| !v.rels.is_empty() && v.rels.iter().all(|r| rels.contains(r)))
+            }))
          && match e.mode.as_str() {
             "any" => true,
             "par" => case.actors.iter().any(|a| a.variant != "ser" && a.variant != "ser_to"),
